@@ -4,7 +4,7 @@
 (* and its completion are one step here (SFetch).                             *)
 EXTENDS Replicator
 SFetch(w) ==
-    /\ w \in W /\ workers[w].pc = "dequeued"
+    /\ w \in W /\ workers[w].pc = "dequeued" /\ workers[w].item \notin Ghost
     /\ IF WLive(w)
          THEN SetW(w, "fetched", workers[w].item) /\ buffer' = Append(buffer, workers[w].item)
          ELSE SetW(w, "failed", workers[w].item) /\ UNCHANGED buffer
@@ -17,7 +17,14 @@ SFetchErr(w) ==
     /\ workers[w].item \in Flaky /\ req[NReq] = "new"
     /\ SetW(w, "failed", workers[w].item)
     /\ UNCHANGED <<tasks, queue, inProg, sem, buffer, log, req, ctx, bus, cancels>>
+\* nobody answers the fetch: it ends when its bound expires
+SFetchTimeout(w) ==
+    /\ w \in W /\ workers[w].pc = "dequeued" /\ WLive(w)
+    /\ workers[w].item \in Ghost /\ Bounded
+    /\ SetW(w, "failed", workers[w].item)
+    /\ UNCHANGED <<tasks, queue, inProg, sem, buffer, log, req, ctx, bus, cancels>>
 SimNext == \/ SStoreLoad
+           \/ \E w \in 1..MaxW : SFetchTimeout(w)
            \/ \E w \in 1..MaxW : SFetchErr(w)
            \/ \E q \in Reqs : Request(q)
            \/ \E w \in 1..MaxW : Acquire(w)
@@ -28,6 +35,8 @@ SimNext == \/ SStoreLoad
            \/ \E q \in Reqs : Cancel(q)
            \/ JoinBatch
 SimSpec == Init /\ [][SimNext]_vars
+\* entry 4 links to 2 and to a block nobody provides (5)
+LinksI == (1 :> <<>> @@ 2 :> <<1>> @@ 3 :> <<2, 1>> @@ 4 :> <<2, 5>> @@ 5 :> <<>>)
 LinksDef == (1 :> <<>> @@ 2 :> <<1>> @@ 3 :> <<2, 1>> @@ 4 :> <<2, 1>>)
 HeadsA == (1 :> <<3>> @@ 2 :> <<2, 4>> @@ 3 :> <<3, 4>>)
 HeadsB == (1 :> <<2, 3>> @@ 2 :> <<4, 3, 2>> @@ 3 :> <<3, 4>>)
